@@ -440,42 +440,50 @@ func FieldOwner(fa *ssa.FieldAddr) (string, string) {
 	return typeShort(t), fieldNameOf(fa.X.Type(), fa.Field)
 }
 
-// ConstName returns the name of the module constant that c denotes (for
-// constants of named module types such as Status, EventCode, MessageType), or
-// "" when there is none.
+// ConstName returns the name of the declared constant that c denotes (for
+// integer constants of named types such as Status, EventCode, MessageType or
+// graphsync.ResponseStatusCode), or "" when there is none. For types outside
+// the module the name is qualified with the package name.
 func (p *Prog) ConstName(c *ssa.Const) string {
 	if c.Value == nil || c.Value.Kind() != constant.Int {
 		return ""
 	}
 	named, ok := c.Type().(*types.Named)
-	if !ok || named.Obj().Pkg() == nil || !p.prodT[named.Obj().Pkg()] {
+	if !ok || named.Obj().Pkg() == nil {
 		return ""
 	}
+	pkg := named.Obj().Pkg()
 	if p.constNames == nil {
 		p.constNames = map[string]string{}
-		for _, pk := range p.Pkgs {
-			sc := pk.Types.Scope()
-			type ent struct {
-				name string
-				pos  token.Pos
+		p.constPkgs = map[*types.Package]bool{}
+	}
+	if !p.constPkgs[pkg] {
+		p.constPkgs[pkg] = true
+		sc := pkg.Scope()
+		type ent struct {
+			name string
+			pos  token.Pos
+		}
+		best := map[string]ent{}
+		for _, n := range sc.Names() {
+			k, ok := sc.Lookup(n).(*types.Const)
+			if !ok || k.Val().Kind() != constant.Int {
+				continue
 			}
-			best := map[string]ent{}
-			for _, n := range sc.Names() {
-				k, ok := sc.Lookup(n).(*types.Const)
-				if !ok || k.Val().Kind() != constant.Int {
-					continue
-				}
-				nt, ok := k.Type().(*types.Named)
-				if !ok {
-					continue
-				}
-				key := types.TypeString(nt, nil) + "=" + k.Val().ExactString()
-				if b, ok := best[key]; !ok || k.Pos() < b.pos {
-					best[key] = ent{n, k.Pos()}
-				}
+			nt, ok := k.Type().(*types.Named)
+			if !ok {
+				continue
 			}
-			for k, e := range best {
+			key := types.TypeString(nt, nil) + "=" + k.Val().ExactString()
+			if b, ok := best[key]; !ok || k.Pos() < b.pos {
+				best[key] = ent{n, k.Pos()}
+			}
+		}
+		for k, e := range best {
+			if p.prodT[pkg] {
 				p.constNames[k] = e.name
+			} else {
+				p.constNames[k] = pkg.Name() + "." + e.name
 			}
 		}
 	}
